@@ -28,3 +28,16 @@ func init() {
 			Old: "\t\tType: DeleteMetadataLogType,\n\t\tDate: at,\n\t\tData: payload,", New: "\t\tType: SetMetadataLogType,\n\t\tDate: at,\n\t\tData: payload,", Expect: "R13b:writer:"},
 	)
 }
+
+func init() {
+	const mon = "internal/machine/monetary.go"
+	parseOld := "\ti, ok := (&big.Int{}).SetString(s, 10)\n\tif !ok {\n\t\treturn nil, errors.New(\"invalid monetary int\")\n\t}\n\n\treturn (*MonetaryInt)(i), nil"
+	viaFloat := "\tf, _, err := big.ParseFloat(s, 10, 0, big.ToNearestEven)\n\tif err != nil || !f.IsInt() {\n\t\treturn nil, errors.New(\"invalid monetary int\")\n\t}\n\ti, _ := f.Int(nil)\n\n\treturn (*MonetaryInt)(i), nil"
+	viaFloat64 := "\tvar f float64\n\tif _, err := fmt.Sscanf(s, \"%g\", &f); err != nil {\n\t\treturn nil, errors.New(\"invalid monetary int\")\n\t}\n\n\treturn (*MonetaryInt)(big.NewInt(int64(f))), nil"
+	for _, p := range []struct{ prop, rule string }{{"C13", "R13g:"}, {"C09", "R09g:"}} {
+		addMutants(
+			Mutant{Property: p.prop, Name: "amount-parsed-through-big-float", File: mon, Old: parseOld, New: viaFloat, Expect: p.rule},
+			Mutant{Property: p.prop, Name: "amount-parsed-through-float64", File: mon, Old: parseOld, New: viaFloat64, Expect: p.rule},
+		)
+	}
+}
